@@ -15,6 +15,7 @@ const (
 	rqQueued = iota
 	rqRunningOnline // executor parked waiting for the remote
 	rqPaused
+	rqDataInFlight // genuine data has just arrived and its block hooks have not run yet
 	nReqPoints
 )
 
@@ -53,7 +54,7 @@ func observeReq(e *Env, rq *Req, pA peer.ID) string {
 			out += fmt.Sprintf("%s:%s,", o.To, r.Type())
 		}
 	}
-	out += fmt.Sprintf("] commits=%v hooksA=%d blockhooks=%d", e.Store.Commits, e.RespHookCalls[pA], e.BlockHookCalls)
+	out += fmt.Sprintf("] commits=%v hooksA=%d blockhooks=%d saw=%v", e.Store.Commits, e.RespHookCalls[pA], e.BlockHookCalls, e.BlockHookSaw)
 	_, listed := e.RM.PeerState(pA).RequestStates[rq.ID]
 	out += fmt.Sprintf(" listed=%v", listed)
 	return out
@@ -90,6 +91,10 @@ func reqScenario(point, shape, hookMode, bOwn int, interfere bool, anyStatus gra
 		e.Deliver(pA, rq.ID, []RespItem{{Link: 0, Present: true}, {Link: 1, Present: true, Block: true}}, graphsync.PartialResponse)
 		kit.Drain()
 	}
+	if point == rqDataInFlight {
+		// no drain: the foreign message (if any) is processed right behind it
+		e.Deliver(pA, rq.ID, []RespItem{{Link: 0, Present: true}, {Link: 1, Present: true, Block: true}}, graphsync.PartialResponse)
+	}
 	if interfere {
 		var items []RespItem
 		st := graphsync.PartialResponse
@@ -117,11 +122,11 @@ func reqScenario(point, shape, hookMode, bOwn int, interfere bool, anyStatus gra
 		case 2:
 			e.DeliverMulti(pB, []Resp{foreign, own})
 		}
-		kit.Drain()
 	} else if bOwn != 0 {
 		e.DeliverMulti(pB, []Resp{{ID: kit.ReqID(1), Status: graphsync.PartialResponse}})
-		kit.Drain()
 	}
+	// both runs settle at the same points
+	kit.Drain()
 	_ = rqB
 	// the genuine exchange with A
 	if workers == 0 {
@@ -132,7 +137,11 @@ func reqScenario(point, shape, hookMode, bOwn int, interfere bool, anyStatus gra
 		_ = e.RM.UnpauseRequest(e.Ctx, rq.ID)
 		kit.Drain()
 	}
-	e.Deliver(pA, rq.ID, []RespItem{{Link: 0, Present: true}, {Link: 1, Present: true, Block: true}}, graphsync.RequestCompletedFull)
+	if point == rqDataInFlight {
+		e.Deliver(pA, rq.ID, nil, graphsync.RequestCompletedFull)
+	} else {
+		e.Deliver(pA, rq.ID, []RespItem{{Link: 0, Present: true}, {Link: 1, Present: true, Block: true}}, graphsync.RequestCompletedFull)
+	}
 	kit.Drain()
 	hb := e.RespHookCalls[pB]
 	return observeReq(e, rq, pA) + fmt.Sprintf(" hooksB=%d", hb), e
